@@ -11,6 +11,12 @@ def one(f):
     mm = re.search(r"rc=(\d+) keys=(.*)", r.stdout)
     rc = int(mm.group(1)) if mm else -1; keys = mm.group(2) if mm else r.stdout[-200:] + r.stderr[-200:]
     verdict = "CAUGHT" if rc == 1 else ("MISSED" if rc == 0 else "INCONCLUSIVE")
+    if verdict == "MISSED" and "extra_check" in m:
+        # a change that the property's own quick tier does not reach by design (DESIGN.md 9.4): run the check / tier named in meta.json
+        x = m["extra_check"]
+        r = subprocess.run([sys.executable, os.path.join(V, "tools", "mutcheck.py"), "--patch", os.path.join(os.path.dirname(f), "patch.diff"), "--check", x["check"], "--tier", x["tier"]], capture_output=True, text=True)
+        mm = re.search(r"rc=(\d+) keys=(.*)", r.stdout)
+        if mm and int(mm.group(1)) == 1: verdict = "MISSED by %s %s, CAUGHT by %s %s" % (m["property"], a.tier, x["check"], x["tier"]); keys = mm.group(2)
     print("%-8s %s %-8s %s %s" % (m["id"], m["property"], a.tier, verdict, keys[:200]), flush=True)
     return (m["id"], m["property"], verdict, keys)
 def natural(f):
@@ -19,5 +25,5 @@ files = [f for f in sorted(glob.glob(os.path.join(V, "seeded", "*", "meta.json")
 with ThreadPoolExecutor(a.jobs) as ex: rows = list(ex.map(one, files))
 if not a.ids:
     with open(os.path.join(V, "seeded", "RESULTS.md"), "w") as f:
-        f.write("# Seeded changes against the current checks (tier=%s), written by tools/seedcheck.py\n\ncaught %d / %d\n\n| id | check | verdict | first keys |\n|---|---|---|---|\n" % (a.tier, sum(r[2] == "CAUGHT" for r in rows), len(rows)))
+        f.write("# Seeded changes against the current checks (tier=%s), written by tools/seedcheck.py\n\ncaught %d / %d\n\n| id | check | verdict | first keys |\n|---|---|---|---|\n" % (a.tier, sum("CAUGHT" in r[2] for r in rows), len(rows)))
         for i, p, v, k in rows: f.write("| %s | %s | %s | `%s` |\n" % (i, p, v, k[:300].replace("|", "/")))
